@@ -55,6 +55,9 @@ class IntegratorTemplate(abc.ABC):
             rtol = self.solver_dict['rtol']
             dState = self.solver_dict['dState']
             order = self.solver_dict['order']
+            # the scale and the error history of the last *accepted* step: an attempt that is rejected below
+            # leaves no trace in them, so that it can neither loosen nor tighten the test of its own retry
+            controller_memory = {key: self.solver_dict[key] for key in ("system_scaling", "epsilon_last", "epsilon_last_last") if key in self.solver_dict}
             if "system_scaling" in self.solver_dict:
                 self.solver_dict["system_scaling"] = 0.8 * self.solver_dict["system_scaling"] +  0.2 * D.ar_numpy.maximum(D.ar_numpy.abs(initial_state), D.ar_numpy.abs(dState / timestep))
             else:
@@ -90,7 +93,12 @@ class IntegratorTemplate(abc.ABC):
                 self.solver_dict["epsilon_last_last"], self.solver_dict["epsilon_last"] = epsilon_last, epsilon_current
             corr = (1 + D.ar_numpy.arctan((safety_factor * corr - 1)))
             timestep = corr * timestep
-            return timestep, bool(corr < 0.9**2)
+            redo_step = bool(corr < 0.9**2)
+            if redo_step:
+                for key in ("system_scaling", "epsilon_last", "epsilon_last_last"):
+                    self.solver_dict.pop(key, None)
+                self.solver_dict.update(controller_memory)
+            return timestep, redo_step
 
     def get_error_estimate(self):
         return 0.0
